@@ -8,9 +8,11 @@ import (
 	"io"
 	"os"
 	"os/exec"
+	"runtime"
 	"runtime/debug"
 	"strings"
 	"sync"
+	"sync/atomic"
 	"time"
 
 	"nvharness/lib/corr"
@@ -34,9 +36,107 @@ type wrep struct {
 var recycleWorker bool
 var isWorker bool
 
+// The line being executed (worker side), for the watchdog below.
+var curLine atomic.Value // string
+var curLineStart atomic.Int64
+
+func lineBegin(l string) { curLine.Store(strings.TrimSpace(l)); curLineStart.Store(time.Now().UnixNano()) }
+func lineEnd()           { curLineStart.Store(0) }
+
+// hangWatchdog: an API call that never returns (a mutex left locked, a lost wake-up) must become a verdict with the
+// script as replay, not a dead or stuck harness. Wall-clock time alone is never evidence; the scheduler state is: once
+// a line has been running for `after`, three goroutine dumps taken `gap` apart in which EVERY goroutine (other than
+// this one) is parked on a lock / channel / wait group / condition, in the same state each time, and none is running,
+// runnable, sleeping on a timer, or in a system call or I/O, show that nothing in the process can make progress any
+// more. The worker then names the line on stderr (`C03-HANG <line>`) and ends with exit code 4; the parent reports
+// `C03:impl:api-call-never-returns` for the script.
+func hangWatchdog() {
+	after, gap := time.Second, 200*time.Millisecond
+	if os.Getenv("C03_HANGFAST") != "" { // the parent has already seen a confirmed hang of this implementation
+		after, gap = 60*time.Millisecond, 25*time.Millisecond
+	}
+	buf := make([]byte, 1<<20)
+	snapshot := func() (string, bool) { // (states, nothing can run)
+		n := runtime.Stack(buf, true)
+		var st []string
+		for i, g := range strings.Split(string(buf[:n]), "\n\n") {
+			h := g
+			if k := strings.IndexByte(h, '\n'); k >= 0 {
+				h = h[:k]
+			}
+			if i == 0 || !strings.HasPrefix(h, "goroutine ") {
+				continue // the first block is this goroutine
+			}
+			a, b := strings.IndexByte(h, '['), strings.LastIndexByte(h, ']')
+			if a < 0 || b < a {
+				return "", false
+			}
+			state := h[a+1 : b]
+			if k := strings.IndexByte(state, ','); k >= 0 {
+				state = state[:k] // drop ", 2 minutes", ", locked to thread"
+			}
+			switch state {
+			case "chan receive", "chan send", "select", "select (no cases)", "semacquire", "sync.Mutex.Lock",
+				"sync.RWMutex.Lock", "sync.RWMutex.RLock", "sync.WaitGroup.Wait", "sync.Cond.Wait",
+				"chan receive (nil chan)", "chan send (nil chan)":
+			default:
+				return "", false // running, runnable, sleep, syscall, IO wait, GC …: progress is possible
+			}
+			if state == "semacquire" {
+				// only inside package sync: a goroutine that allocates during this dump's own stop-the-world also
+				// shows as [semacquire], with a user frame on top — it is running
+				ls := strings.SplitN(g, "\n", 3)
+				if len(ls) < 2 || !strings.HasPrefix(ls[1], "sync.") {
+					return "", false
+				}
+			}
+			st = append(st, h[:a]+state)
+		}
+		return strings.Join(st, ";"), len(st) > 0
+	}
+	for {
+		time.Sleep(gap)
+		t0 := curLineStart.Load()
+		if t0 == 0 || time.Since(time.Unix(0, t0)) < after {
+			continue
+		}
+		s1, ok := snapshot()
+		same := ok
+		for k := 0; k < 2 && same; k++ {
+			time.Sleep(gap)
+			s2, ok2 := snapshot()
+			same = ok2 && s2 == s1 && curLineStart.Load() == t0
+		}
+		if !same {
+			continue
+		}
+		l, _ := curLine.Load().(string)
+		n := runtime.Stack(buf, true)
+		where := ""
+		for _, g := range strings.Split(string(buf[:n]), "\n\n") {
+			if strings.Contains(g, "github.com/pinealctx/neptune/") {
+				ls := strings.Split(g, "\n")
+				for i := 1; i < len(ls) && i < 8; i++ {
+					if !strings.HasPrefix(ls[i], "\t") && strings.Contains(ls[i], "neptune/") {
+						where = strings.TrimSpace(ls[i])
+						break
+					}
+				}
+				if k := strings.IndexByte(ls[0], '['); k >= 0 && where != "" {
+					where = strings.TrimSuffix(strings.TrimSpace(ls[0][k:]), ":") + " in " + where
+				}
+				break
+			}
+		}
+		fmt.Fprintf(os.Stderr, "C03-HANG %s | every goroutine is parked and none can run: %s\n", l, where)
+		os.Exit(4)
+	}
+}
+
 func workerMain() {
 	isWorker = true
 	debug.SetMaxStack(48 << 20) // fail fast on runaway recursion
+	go hangWatchdog()
 	in := bufio.NewReaderSize(os.Stdin, 1<<20)
 	out := bufio.NewWriter(os.Stdout)
 	for {
@@ -119,9 +219,13 @@ type worker struct {
 }
 
 var curWorker *worker
+var hangSeen bool // a hang of this implementation has been confirmed: later workers confirm faster
 
 func startWorker() (*worker, error) {
 	cmd := exec.Command(os.Args[0], "worker")
+	if hangSeen {
+		cmd.Env = append(os.Environ(), "C03_HANGFAST=1")
+	}
 	in, err := cmd.StdinPipe()
 	if err != nil {
 		return nil, err
@@ -171,7 +275,11 @@ func runIsolated(c corr.Case) corr.Result {
 		}
 		key, what := "C03:impl:fatal-runtime-error", "the implementation brought the process down while executing the script: "+msg
 		if eb != nil {
-			if call, open := eb.pending("C03-BIGLIMIT"); open {
+			if call, hung := eb.pending("C03-HANG"); hung {
+				hangSeen = true
+				key = "C03:impl:api-call-never-returns"
+				what = "the call never returns (deadlock): `" + strings.Replace(call, " | ", "` — ", 1)
+			} else if call, open := eb.pending("C03-BIGLIMIT"); open {
 				key = "C03:tree:iterWalk:limit-panics-or-exhausts-memory"
 				what = "`" + call + "` brought the process down (" + msg + ") — the first n matching items exist and are few"
 			} else if _, open := eb.pending("C03-PAR"); open {
